@@ -8,6 +8,7 @@ import re, itertools
 from urllib.parse import quote, unquote, parse_qsl
 from vlib import common as C
 
+DRIVERS = ['Query']   # model driver files this check runs: scopes translator failures to the tables they (and the proofs) import
 TRUSTED = ['Rust std as modelled: str::replace (Rws.replaceAll), str::split on an ASCII byte, str::trim / char::is_whitespace '
            '(White_Space table written out in Rws/Query.lean, exercised for every scalar in the thorough tier), String::from_utf8 '
            '(Rws.Query.validUtf8), char::is_ascii_control, usize::from_str, HashMap::insert (last insertion wins), stable slice::sort_by',
